@@ -234,7 +234,7 @@ func (w *FileWriter) generateFieldSchemaCode(field tagparser.FieldInfo, structNa
 	if rule := findEnumRule(field.Rules); rule != nil && isStringType(field.Type) {
 		values := make([]string, 0, len(rule.Params))
 		for _, param := range rule.Params {
-			values = append(values, fmt.Sprintf(`"%s"`, param))
+			values = append(values, strconv.Quote(param))
 		}
 		var b strings.Builder
 		b.WriteString("gozod.Enum(")
